@@ -37,7 +37,7 @@ FAMILIES = ["canonical", "hamiltonian", "isobaric", "isotension", "grand", "gran
 
 def plan(tier, seed):
     n = 16 if tier == "quick" else 48
-    return [{"name": f"{FAMILIES[j % len(FAMILIES)]}{j}", "family": FAMILIES[j % len(FAMILIES)], "j": j, "seed": seed, "sims": 8 if tier == "quick" else 40, "steps": 30 if tier == "quick" else 80} for j in range(n)]
+    return [{"name": f"{FAMILIES[j % len(FAMILIES)]}{j}", "family": FAMILIES[j % len(FAMILIES)], "j": j, "seed": seed, "sims": 30 if tier == "quick" else 60, "steps": 30 if tier == "quick" else 80} for j in range(n)]
 
 
 def soft_state(mc, moves):
